@@ -550,12 +550,15 @@ Section Key.
       destruct (same_types t (nn rest)) eqn:Hr.
       + pose proof (typed_rechunk t (v0 :: r) (nn rest) ltac:(discriminate) Hs0 Hr Hbn) as H.
         destruct (concat_typed f t (v0 :: r)) as [v| |]; [|exact H|exact H].
-        destruct H as [Hty H]. cbn [filter]. rewrite (dyn_ty_nonnil _ _ Hty). cbn [negb].
-        fold nn. rewrite Hty, Hr. exact H.
+        destruct H as [Hty H].
+        assert (Hnn : nn (v :: rest) = v :: nn rest)
+          by (unfold nn; cbn [filter]; rewrite (dyn_ty_nonnil _ _ Hty); reflexivity).
+        rewrite Hnn, Hty, Hr. exact H.
       + destruct (concat_typed f t (v0 :: r)) as [v| |] eqn:Ec; [|reflexivity|reflexivity].
         pose proof (typed_ty t (v0 :: r) v ltac:(discriminate) Hs0 Hb0 Ec) as Hty.
-        cbn [filter]. rewrite (dyn_ty_nonnil _ _ Hty). cbn [negb]. fold nn. rewrite Hty, Hr.
-        exact I.
+        assert (Hnn : nn (v :: rest) = v :: nn rest)
+          by (unfold nn; cbn [filter]; rewrite (dyn_ty_nonnil _ _ Hty); reflexivity).
+        rewrite Hnn, Hty, Hr. exact I.
   Qed.
 
   Lemma step_rechunk xs ys :
@@ -619,3 +622,100 @@ Qed.
 
 Theorem concat_maps_rechunk xs ys : rechunk_ok concat_maps_top xs ys.
 Proof. apply (concat_maps_rechunk_n (S (dmaps (xs ++ ys)))), bounded_top. Qed.
+
+(* ------------------------------------------------------------------ statically typed item lists *)
+
+Lemma maps_of_all_maps vs : same_types TMap vs = true -> map CMap (maps vs) = vs.
+Proof.
+  unfold maps. induction vs as [|v vs IH]; cbn; [reflexivity|].
+  destruct v; cbn; try discriminate. intros H. rewrite IH by exact H. reflexivity.
+Qed.
+
+Lemma concat_items_map vs :
+  vs <> [] -> same_types TMap vs = true -> concat_items vs = res_map CMap (concat_maps_top (maps vs)).
+Proof.
+  intros Hne Hs. destruct vs as [|v0 l]; [congruence|].
+  pose proof (same_types_In _ _ v0 Hs ltac:(now left)) as H0.
+  unfold concat_items. rewrite H0. unfold concat_maps_top, dmaps.
+  rewrite maps_of_all_maps by exact Hs. reflexivity.
+Qed.
+
+Lemma concat_items_other t vs :
+  vs <> [] -> t <> TMap -> same_types t vs = true ->
+  concat_items vs = concat_typed (fun _ => Err 0%N) t vs.
+Proof.
+  intros Hne Ht Hs. destruct vs as [|v0 l]; [congruence|].
+  pose proof (same_types_In _ _ v0 Hs ltac:(now left)) as H0.
+  unfold concat_items. rewrite H0. destruct t; try reflexivity. congruence.
+Qed.
+
+Lemma nonmap_depth t v : dyn_ty v = Some t -> t <> TMap -> depth v = 0.
+Proof. destruct v; cbn; intros H Ht; try reflexivity. inversion H. congruence. Qed.
+
+Lemma items_rechunk t xs ys :
+  xs <> [] -> same_types t (xs ++ ys) = true ->
+  match concat_items xs with
+  | Ok c => dyn_ty c = Some t /\ req (concat_items (c :: ys)) (concat_items (xs ++ ys))
+  | _ => fails (concat_items (xs ++ ys))
+  end.
+Proof.
+  intros Hne Hs.
+  assert (Hne' : xs ++ ys <> []) by (destruct xs; [congruence|discriminate]).
+  pose proof Hs as Hs'. rewrite same_types_app in Hs'. apply andb_prop in Hs'. destruct Hs' as [Hx Hy].
+  destruct (cty_eqb t TMap) eqn:Et.
+  - apply cty_eqb_eq in Et. subst t.
+    rewrite (concat_items_map xs Hne Hx), (concat_items_map (xs ++ ys) Hne' Hs).
+    pose proof (concat_maps_rechunk (maps xs) (maps ys)) as H. unfold rechunk_ok in H.
+    rewrite maps_app.
+    destruct (concat_maps_top (maps xs)) as [c| |]; cbn [res_map].
+    + split; [reflexivity|]. rewrite concat_items_map; [|discriminate|].
+      * cbn [maps flat_map app]. apply req_res_map. exact H.
+      * rewrite (same_types_cons TMap (CMap c) ys eq_refl). exact Hy.
+    + apply fails_res_map, H.
+    + apply fails_res_map, H.
+  - assert (Ht : t <> TMap) by (intros ->; cbn in Et; discriminate).
+    rewrite (concat_items_other t xs Hne Ht Hx), (concat_items_other t (xs ++ ys) Hne' Ht Hs).
+    assert (Hb : vbounded 1 (xs ++ ys)).
+    { unfold vbounded. apply Forall_forall. intros v Hin.
+      rewrite (nonmap_depth t v); [lia| |exact Ht]. apply (same_types_In _ _ _ Hs Hin). }
+    pose proof (typed_rechunk (fun _ => Err 0%N) 1 (fun _ _ _ => eq_refl) t xs ys Hne Hx Hy Hb) as H.
+    destruct (concat_typed _ t xs) as [c| |]; [|exact H|exact H].
+    destruct H as [Hty H]. split; [exact Hty|].
+    rewrite (concat_items_other t (c :: ys)); [exact H|discriminate|exact Ht|].
+    rewrite (same_types_cons _ _ _ Hty). exact Hy.
+Qed.
+
+(* what concatStreamReader computes: single-chunk shortcut, then ConcatItems *)
+Theorem concat_stream_rechunk_weak t xs ys :
+  xs <> [] -> (forall v, In v (xs ++ ys) -> dyn_ty v = Some t) ->
+  rechunk_ok concat_stream xs ys /\ (forall c, concat_stream xs = Ok c -> dyn_ty c = Some t).
+Proof.
+  intros Hne Hall. pose proof (same_types_of t _ Hall) as Hs.
+  unfold rechunk_ok.
+  destruct xs as [|x1 [|x2 l]]; [congruence| |].
+  - cbn [concat_stream]. split; [apply req_refl|]. intros c H. inversion H; subst. apply Hall. now left.
+  - pose proof (items_rechunk t (x1 :: x2 :: l) ys Hne Hs) as H.
+    change (concat_stream (x1 :: x2 :: l)) with (concat_items (x1 :: x2 :: l)).
+    destruct (concat_items (x1 :: x2 :: l)) as [c| |] eqn:E.
+    + destruct H as [Hty H]. split; [|intros c' Hc; inversion Hc; subst; exact Hty].
+      destruct ys as [|y ys'].
+      * rewrite app_nil_r. cbn [concat_stream]. rewrite E. reflexivity.
+      * exact H.
+    + split; [exact H|discriminate].
+    + split; [exact H|discriminate].
+Qed.
+
+Theorem concat_stream_rechunk t xs ys :
+  xs <> [] -> (forall v, In v (xs ++ ys) -> dyn_ty v = Some t) ->
+  rechunk_strict concat_stream xs ys.
+Proof.
+  intros Hne Hall. destruct (concat_stream_rechunk_weak t xs ys Hne Hall) as [H Hty].
+  assert (Hnn : forall v, In v (xs ++ ys) -> is_nil v = false)
+    by (intros v Hin; apply (dyn_ty_nonnil v t), Hall, Hin).
+  apply rechunk_strict_of; [exact H| | |].
+  - apply concat_stream_total. intros v Hin. apply Hnn, in_or_app. now left.
+  - apply concat_stream_total, Hnn.
+  - intros c Hc. apply concat_stream_total. intros v [<-|Hin].
+    + apply (dyn_ty_nonnil c t), Hty, Hc.
+    + apply Hnn, in_or_app. now right.
+Qed.
